@@ -6,7 +6,10 @@ claims = json.load(open(os.path.join(V, 'tools', 'claims.json')))
 props = [json.loads(l)['id'] for l in open(os.path.join(V, 'properties.jsonl'))]
 checks, na = [], []
 for pid in props:
-    c = claims.get(pid, {})
+    c = dict(claims.get(pid, {}))
+    cf = os.path.join(V, 'harness', pid, 'CLAIM.json')
+    if os.path.exists(cf):
+        c.update(json.load(open(cf)))
     has = bool(glob.glob(os.path.join(V, 'harness', pid, '*.json')))
     if c.get('claimed') and has:
         specs = [json.load(open(f)) for f in sorted(glob.glob(os.path.join(V, 'harness', pid, '*.json')))]
